@@ -63,7 +63,9 @@ def m_C01(tier):
             # keymaps (on lru / inf / no / rr only in quick)
             if tier == 'thorough' or alg in ('lru', 'no', 'rr'):
                 for km in (keymaps_q if tier == 'quick' else keymaps_t):
-                    if km == 'default':
+                    if km == 'default' or (km == 'rawnf' and mod == 'std'):
+                        # (a non-flat raw key is an (args, {kwds}) tuple: not hashable, so the standard decorators cannot be
+                        # used with it at all -- klepto's own test suite notes the TypeError; the safe ones fall back)
                         continue
                     cfgs.append(C(mod, alg, None if alg in ('no', 'inf') else 2, False, km, 'dict'))
     # persistent + direct backends
@@ -102,6 +104,8 @@ def m_C01(tier):
                 cfgs.append(C(mod, alg, ms, False, km, 'dict', fn='var', nargs=4, spellings=1))
             if tier == 'thorough':
                 for km in ('rawnf', 'rawtyped', 'strnf', 'picklenf'):
+                    if km == 'rawnf' and mod == 'std':
+                        continue
                     cfgs.append(C(mod, alg, ms, False, km, 'dict', fn='var', nargs=5, spellings=1))
             # a partial re-binding a keyword-only default: p(1) really runs with k=7, p(1, k=3) with k=3
             for km in (('default', 'raw') if tier == 'quick' else ('default', 'raw', 'str', 'picklenf', 'md5')):
